@@ -12,7 +12,7 @@
 From Coq Require Import String.
 From Verif Require Import Lib.Base Lib.Dyadic Lib.Utf8 Model.Printf
   Proofs.PrintfSpec Proofs.PrintfBase Proofs.PrintfInt Proofs.PrintfDir
-  Proofs.PrintfScan Proofs.PrintfSprintf Proofs.PrintfParse Proofs.PrintfPrint Proofs.PrintfStr.
+  Proofs.PrintfScan Proofs.PrintfSprintf Proofs.PrintfParse Proofs.PrintfPrint Proofs.PrintfStr Proofs.PrintfMulti.
 
 (* ================= format parsing and run-time errors ================= *)
 
@@ -336,6 +336,72 @@ Example C09_ex_nonfinite :
     [VNum (FInf true); VNum (FInf false); VNum (FInf true); VNum FNaN; VNum (FInf false); VNum (FInf false); VNum FNaN; VNum FNaN]
   = Ok (bs "-inf|inf|-INF|     NAN|inf   |+inf|  nan|nan").
 Proof. vm_compute. reflexivity. Qed.
+
+(* ================= whole formats ================= *)
+
+(* any number of conversion specifications, each preceded by literal text, arguments taken in
+   order, extra arguments ignored: sprintf prints the concatenation of what C prints for each
+   (negative '*' precisions anywhere in the format included: the cut positions stay right).
+   [item_ok] holds for the integer, string and character conversions under the guards above. *)
+Theorem C09_whole_format_agree_partial : forall chars ffmt items post extra,
+  Forall (item_ok chars ffmt) items -> no_pct post = true ->
+  sprintf chars ffmt (fmt_of items post) (args_of items extra) = Ok (expected chars items post).
+Proof. exact sprintf_items. Qed.
+Print Assumptions C09_whole_format_agree_partial.
+
+Theorem C09_item_int : forall chars ffmt pre d wv pv aw ap a v,
+  wf_dir d = true -> is_int_conv (d_conv d) = true -> no_pct pre = true -> lim d wv pv ->
+  (d_width d = WStar -> awk_int (v_num aw) = Some wv) ->
+  (d_prec d = PrStar -> awk_int (v_num ap) = Some pv) ->
+  awk_int (v_num a) = Some v ->
+  (conv_ty (d_conv d) = TyU -> - two63 <= v < two64) ->
+  int_ok d (resolve d wv pv) v ->
+  exists g, item_ok chars ffmt (mkItem pre d wv pv aw ap a g (AInt v)).
+Proof. exact item_ok_int. Qed.
+Print Assumptions C09_item_int.
+
+Theorem C09_item_string : forall chars ffmt pre d wv pv aw ap a s,
+  wf_dir d = true -> d_conv d = Cs -> c_defined d = true -> no_pct pre = true -> lim d wv pv ->
+  (d_width d = WStar -> awk_int (v_num aw) = Some wv) ->
+  (d_prec d = PrStar -> awk_int (v_num ap) = Some pv) ->
+  v_str ffmt a = Ok s ->
+  ascii s = true \/ (d_width d = WNone /\ d_prec d = PrNone) ->
+  item_ok chars ffmt (mkItem pre d wv pv aw ap a (GStr s) (AStr s)).
+Proof. exact item_ok_s. Qed.
+Print Assumptions C09_item_string.
+
+Theorem C09_item_char : forall chars ffmt pre d wv pv aw ap a ch,
+  wf_dir d = true -> d_conv d = Cc -> c_defined d = true -> no_pct pre = true -> lim d wv pv ->
+  (d_width d = WStar -> awk_int (v_num aw) = Some wv) ->
+  conv_c chars ffmt a = Ok ch -> rune_count ch = 1 ->
+  item_ok chars ffmt (mkItem pre d wv pv aw ap a (GBytes ch) (AChar ch)).
+Proof. exact item_ok_c. Qed.
+Print Assumptions C09_item_char.
+
+(* non-vacuity: "n=%.*d %s|%c!" with a negative precision argument, then "ab", 65, and an extra argument *)
+Definition ex_items : list ditem :=
+  [ mkItem (bs "n=") (mkDir [] WNone PrStar Cd) 0 (-3) VNull (n (-3)) (n 42) (GInt 42) (AInt 42);
+    mkItem (bs " ") (mkDir [] WNone PrNone Cs) 0 0 VNull VNull (VStr (bs "ab") (FFin 0 0)) (GStr (bs "ab")) (AStr (bs "ab"));
+    mkItem (bs "|") (mkDir [] WNone PrNone Cc) 0 0 VNull VNull (n 65) (GBytes [65]) (AChar [65]) ].
+Example C09_ex_whole_format :
+  fmt_of ex_items (bs "!") = bs "n=%.*d %s|%c!" /\
+  sprintf false ffmt_unmod (bs "n=%.*d %s|%c!") (args_of ex_items [n 7]) = Ok (bs "n=42 ab|A!") /\
+  expected false ex_items (bs "!") = bs "n=42 ab|A!".
+Proof. repeat split; vm_compute; reflexivity. Qed.
+Example C09_ex_whole_format_items_ok : Forall (item_ok false ffmt_unmod) ex_items.
+Proof.
+  apply Forall_cons; [|apply Forall_cons; [|apply Forall_cons; [|apply Forall_nil]]].
+  - destruct (item_ok_int false ffmt_unmod (bs "n=") (mkDir [] WNone PrStar Cd) 0 (-3) VNull (n (-3)) (n 42) 42) as (g & Hg);
+      try reflexivity; try discriminate.
+    + split; [exact I | vm_compute; split; discriminate].
+    + vm_compute. intros (H1 & _). discriminate H1.
+    + assert (g = GInt 42) as ->; [|exact Hg].
+      destruct Hg as (_ & _ & _ & _ & _ & Hc & _). cbn in Hc. vm_compute in Hc. injection Hc as <-. reflexivity.
+  - apply (item_ok_s false ffmt_unmod (bs " ") (mkDir [] WNone PrNone Cs) 0 0 VNull VNull (VStr (bs "ab") (FFin 0 0)) (bs "ab"));
+      try reflexivity; try discriminate; [split; exact I | left; reflexivity].
+  - apply (item_ok_c false ffmt_unmod (bs "|") (mkDir [] WNone PrNone Cc) 0 0 VNull VNull (n 65) [65]);
+      try reflexivity; try discriminate. split; exact I.
+Qed.
 
 (* ================= print ================= *)
 
